@@ -478,19 +478,45 @@ def locScalePdf (f : α → α) (loc scale x : α) : α := f ((x - loc) / scale)
 /-- scipy: `ppf(q, *shapes, loc, scale) = Q(q)*scale + loc` -/
 def locScalePpf (Q : α → α) (loc scale q : α) : α := Q q * scale + loc
 
-/-! standard forms (scipy docs of `weibull_min`, `exponweib`) -/
+/-! standard forms (scipy docs of `weibull_min`, `exponweib`, `lognorm`, `norm`, `gengamma`,
+`vonmises`); the value of a density *at* the lower end of the support is whatever the formula
+gives there (as in scipy: `0^(c-1)`), below it is 0 -/
 def stdWeibullCdf (T : Tr α) (c z : α) : α := if z ≤ 0 then 0 else 1 - T.exp (-(T.pow z c))
 def stdWeibullPdf (T : Tr α) (c z : α) : α :=
-  if z ≤ 0 then 0 else c * T.pow z (c - 1) * T.exp (-(T.pow z c))
+  if z < 0 then 0 else c * T.pow z (c - 1) * T.exp (-(T.pow z c))
 def stdWeibullPpf (T : Tr α) (c q : α) : α := T.pow (-(T.log (1 - q))) (1 / c)
 
 def stdExpWeibCdf (T : Tr α) (a c z : α) : α :=
   if z ≤ 0 then 0 else T.pow (1 - T.exp (-(T.pow z c))) a
 def stdExpWeibPdf (T : Tr α) (a c z : α) : α :=
-  if z ≤ 0 then 0
+  if z < 0 then 0
   else a * c * T.pow (1 - T.exp (-(T.pow z c))) (a - 1) * T.exp (-(T.pow z c)) * T.pow z (c - 1)
 def stdExpWeibPpf (T : Tr α) (a c q : α) : α :=
   T.pow (-(T.log (1 - T.pow q (1 / a)))) (1 / c)
+
+/-- `lognorm(s)`: `F(z) = Φ(log z / s)` -/
+def stdLognormCdf (T : Tr α) (Phi : α → α) (s z : α) : α :=
+  if z ≤ 0 then 0 else Phi (T.log z / s)
+/-- `lognorm.pdf(z, s) = 1/(s z sqrt(2π)) exp(-log²z / (2 s²))` -/
+def stdLognormPdf (T : Tr α) (s z : α) : α :=
+  if z ≤ 0 then 0
+  else 1 / (s * z * T.sqrt (2 * T.pi)) * T.exp (-(T.log z * T.log z) / (2 * (s * s)))
+def stdLognormPpf (T : Tr α) (PhiInv : α → α) (s q : α) : α := T.exp (s * PhiInv q)
+
+/-- `norm.pdf(z) = exp(-z²/2)/sqrt(2π)` -/
+def stdNormPdf (T : Tr α) (z : α) : α := T.exp (-(z * z) / 2) / T.sqrt (2 * T.pi)
+
+/-- `gengamma(a, c)`: `F(z) = P(a, z^c)` -/
+def stdGengammaCdf (T : Tr α) (P : α → α → α) (a c z : α) : α :=
+  if z ≤ 0 then 0 else P a (T.pow z c)
+/-- `gengamma.pdf(z, a, c) = c z^(ca-1) exp(-z^c) / Γ(a)` (for `c > 0`) -/
+def stdGengammaPdf (T : Tr α) (gammaA : α) (a c z : α) : α :=
+  if z < 0 then 0 else c * T.pow z (c * a - 1) * T.exp (-(T.pow z c)) / gammaA
+def stdGengammaPpf (T : Tr α) (PInv : α → α → α) (a c q : α) : α := T.pow (PInv a q) (1 / c)
+
+/-- `vonmises.pdf(z, κ) = exp(κ cos z) / (2π I₀(κ))` -/
+def stdVonMisesPdf (T : Tr α) (i0k : α) (kappa z : α) : α :=
+  T.exp (kappa * T.cos z) / (2 * T.pi * i0k)
 
 /-! documented formulas (docstrings of virocon/distributions.py) -/
 
@@ -499,10 +525,11 @@ def weibullCdf (T : Tr α) (a b g x : α) : α :=
   if x ≤ g then 0 else 1 - T.exp (-(T.pow ((x - g) / a) b))
 /-- docstring: `f(x) = β/α ((x-γ)/α)^(β-1) exp(-((x-γ)/α)^β)` -/
 def weibullPdf (T : Tr α) (a b g x : α) : α :=
-  if x ≤ g then 0 else b / a * T.pow ((x - g) / a) (b - 1) * T.exp (-(T.pow ((x - g) / a) b))
+  if x < g then 0 else b / a * T.pow ((x - g) / a) (b - 1) * T.exp (-(T.pow ((x - g) / a) b))
 def weibullIcdf (T : Tr α) (a b g p : α) : α := g + a * T.pow (-(T.log (1 - p))) (1 / b)
 
-/-- exponentiated Weibull docstring: `F(x) = [1 - exp(-(x/α)^β)]^δ` -/
+/-- exponentiated Weibull docstring: `F(x) = [1 - exp(-(x/α)^β)]^δ`; the density is set to 0
+for `x ≤ 0` by virocon itself (`np.where(x > 0, x, nan)`, nan ↦ 0) -/
 def ewCdf (T : Tr α) (a b d x : α) : α :=
   if x ≤ 0 then 0 else T.pow (1 - T.exp (-(T.pow (x / a) b))) d
 def ewPdf (T : Tr α) (a b d x : α) : α :=
@@ -545,7 +572,7 @@ def ggIcdf (T : Tr α) (PInv : α → α → α) (m c lam p : α) : α :=
 (The docstring prints `exp[-(λ x^c)]`; that expression does not integrate to one unless `c = 1`,
 Ochi's density, the one the tests pin and the one meant, has `(λx)^c`.) -/
 def ggPdf (T : Tr α) (gammaM : α) (m c lam x : α) : α :=
-  if x ≤ 0 then 0
+  if x < 0 then 0
   else T.pow lam (c * m) * c * T.pow x (c * m - 1) * T.exp (-(T.pow (lam * x) c)) / gammaM
 
 /-- von Mises docstring: `f(x) = exp(κ cos(x-μ)) / (2π I₀(κ))`, `i0k` = I₀(κ) as a leaf.
